@@ -26,7 +26,7 @@ echo "demo patched exit=$d ($(tail -1 /tmp/vs/${P}_${K}_$$.patched.log | cut -c1
 cd "$WT" || exit 2
 if [ "$1" = "notests" ]; then echo "tests skipped"; exit 0; fi
 if [ $# -eq 0 ]; then set -- ; fi
-$PY -m pytest "$@" -q -p no:cacheprovider --timeout=900 --continue-on-collection-errors -n 10 --deselect 'test/typing/test_mypy.py::MypyPlainTest::test_mypy_no_plugin[typed_queries.py]' --deselect test/base/test_concurrency.py::GreenletImportTests >/tmp/vs/${P}_$K.tests.log 2>&1; t=$?
+$PY -m pytest "$@" -q -p no:cacheprovider --timeout=900 --continue-on-collection-errors -n ${SEED_TEST_N:-10} --deselect 'test/typing/test_mypy.py::MypyPlainTest::test_mypy_no_plugin[typed_queries.py]' --deselect test/base/test_concurrency.py::GreenletImportTests >/tmp/vs/${P}_$K.tests.log 2>&1; t=$?
 echo "tests exit=$t $(tail -1 /tmp/vs/${P}_$K.tests.log)"
 grep -E "^(FAILED|ERROR)" /tmp/vs/${P}_$K.tests.log | head -10
 [ $t -eq 0 ] || exit 5
